@@ -260,25 +260,51 @@ def rule_jitmask_x86(ctx, R):
     mk = decode.masks(F)
     R.rule('MEM-JITMASK', 'x86 address helpers choose among the same three mask constants under the same conditions as the decoder: genAddressReg -> mod.mem ? L1 : L2; '
            'genAddressRegDst -> mod.cond < 14 ? (mod.mem ? L1 : L2) : L3; genAddressImm -> imm32 & L3; handlers use them as the decoder uses the levels', min_instances=20)
+    inv = {mk['L1']: 'L1', mk['L2']: 'L2', mk['L3']: 'L3'}
+
+    def mask_table(f):
+        """{frozenset of decided atoms: level of the last 32-bit word emitted on the path}: the same whether the choice is written as if / else or as ?:"""
+        tab = {}
+        for p in decoder.paths(f['body']):
+            atoms = []
+            for c, t in p.conds:
+                c_ = strip_all(c)
+                while c_['k'] == 'Cast':
+                    c_ = strip_all(c_['e'])
+                neg = False
+                while c_['k'] == 'Un' and c_['op'] == '!':
+                    neg = not neg
+                    c_ = strip_all(c_['e'])
+                if c_['k'] == 'Bin' and c_['op'] == '!=' and val(c_['r']) == 0:
+                    c_ = strip_all(c_['l'])
+                if c_['k'] == 'Call' and c_.get('name') == 'getModMem':
+                    atoms.append(('mem', t != neg))
+                elif c_['k'] == 'Bin' and c_['op'] in ('<', '>=') and strip_all(c_['l']).get('name') == 'getModCond' and val(c_['r']) is not None:
+                    lt = (c_['op'] == '<') == (t != neg)
+                    atoms.append(('cond<%d' % val(c_['r']), lt))
+                else:
+                    atoms.append((show(c_), t != neg))
+            words = [c2 for e_ in p.events if not isinstance(e_, tuple) for c2 in calls(e_) if c2.get('name') == 'emit32']
+            lvl = None
+            if words:
+                v_ = val(words[-1]['a'][0])
+                lvl = inv.get(v_, 'const %s' % v_ if v_ is not None else decode.classify_mask(words[-1]['a'][0], mk))
+            key = frozenset(a_ for a_ in atoms if a_[0] == 'mem' or a_[0].startswith('cond<'))      # other decisions (SIB byte, which temporary) do not choose the mask
+            if key in tab and tab[key] != lvl:
+                tab[key] = 'depends on %s' % sorted(a_[0] for a_ in atoms if a_ not in key)
+            else:
+                tab[key] = lvl
+        return tab
     f = F.func('randomx::JitCompilerX86::genAddressReg')
+    tab = mask_table(f)
+    R.check(tab == {frozenset([('mem', True)]): 'L1', frozenset([('mem', False)]): 'L2'}, 'genAddressReg mask', '%s:%d' % (f['file'], f['line']), expected='mod.mem ? L1 : L2', found=sorted((sorted(k), v) for k, v in tab.items()))
     e32 = [c for c in calls(f['body']) if c.get('name') == 'emit32']
-    cls = decode.classify_mask(e32[-1]['a'][0], mk) if e32 else None
-    R.check(cls == 'mem?L1:L2', 'genAddressReg mask', '%s:%d' % (f['file'], f['line']), expected='mem?L1:L2', found=cls)
-    R.check(len(e32) == 2 and showv(e32[0]['a'][0]).endswith('getImm32()'), 'genAddressReg displacement', '%s:%d' % (f['file'], f['line']), expected='emit32(instr.getImm32())', found=[showv(c['a'][0]) for c in e32])
+    R.check(len(e32) >= 2 and showv(e32[0]['a'][0]).endswith('getImm32()'), 'genAddressReg displacement', '%s:%d' % (f['file'], f['line']), expected='emit32(instr.getImm32())', found=[showv(c['a'][0]) for c in e32])
     f = F.func('randomx::JitCompilerX86::genAddressRegDst')
-    h = jitfacts.Handler(F, f)
-    for p in h.paths:
-        conds = dict(p['conds'])
-    ifs = [x for x in walk(f['body']) if x['k'] == 'If' and 'getModCond' in show(x['c'])]
-    okd = False
-    found = None
-    if len(ifs) == 1:
-        c = strip_all(ifs[0]['c'])
-        t = [c2 for c2 in calls(ifs[0]['t']) if c2.get('name') == 'emit32']
-        e = [c2 for c2 in calls(ifs[0]['e']) if c2.get('name') == 'emit32'] if ifs[0].get('e') else []
-        found = '%s ? %s : %s' % (showv(c), decode.classify_mask(t[0]['a'][0], mk) if t else None, decode.classify_mask(e[0]['a'][0], mk) if e else None)
-        okd = c['k'] == 'Bin' and c['op'] == '<' and val(c['r']) == 14 and len(t) == 1 and len(e) == 1 and decode.classify_mask(t[0]['a'][0], mk) == 'mem?L1:L2' and decode.classify_mask(e[0]['a'][0], mk) == 'L3'
-    R.check(okd, 'genAddressRegDst mask', '%s:%d' % (f['file'], f['line']), expected='getModCond() < 14 ? mem?L1:L2 : L3', found=found)
+    tab = mask_table(f)
+    slc_ = F.const('randomx::StoreL3Condition')
+    want = {frozenset([('cond<%d' % slc_, True), ('mem', True)]): 'L1', frozenset([('cond<%d' % slc_, True), ('mem', False)]): 'L2', frozenset([('cond<%d' % slc_, False)]): 'L3'}
+    R.check(tab == want, 'genAddressRegDst mask', '%s:%d' % (f['file'], f['line']), expected='getModCond() < 14 ? (mod.mem ? L1 : L2) : L3', found=sorted((sorted(k), v) for k, v in tab.items()))
     f = F.func('randomx::JitCompilerX86::genAddressImm')
     e32 = [c for c in calls(f['body']) if c.get('name') == 'emit32']
     oki = len(e32) == 1 and strip_all(e32[0]['a'][0])['k'] == 'Bin' and strip_all(e32[0]['a'][0])['op'] == '&' and val(strip_all(e32[0]['a'][0])['r']) == mk['L3'] and 'getImm32' in show(strip_all(e32[0]['a'][0])['l'])
